@@ -5,6 +5,7 @@ import (
 	"runtime"
 	"strconv"
 	"strings"
+	"sync"
 	"verifharness/docs"
 
 	"verifharness/gen"
@@ -67,7 +68,7 @@ func c05Case(r *mon.Run, t *mon.Tally, wl string, idx int, expr string, hdocs []
 
 func c05(r *mon.Run) {
 	r.Rule = "byte strings as expressions: (1) every string of <= 2 bytes and every 3-byte string over a 40-byte alphabet of delimiters, escapes and UTF-8 lead/continuation bytes; (2) seeded soups of hostile lexemes (identifiers followed by boundary code points and invalid UTF-8, extreme and malformed numbers, unterminated and escaped delimiters); " +
-		"(3) every recursive construct nested 1..~32k deep (up to 64 KiB); (4) grammar-generated trees of all fragments with hostile leaves, and 21 functions on 43 edge strings (truncated numbers, lone signs, huge digit runs, invalid UTF-8, NUL, 70 kB strings); (4b) every function x 16 call shapes x 23 element patterns (homogeneous, one odd element first / middle / last, inconsistent by-expression keys, all types mixed) x 22 array lengths on and around internal thresholds (…63, 64, 65…1000; thorough to 10000); (5) the repository's fuzz corpus (642 files go test never runs), the compliance expressions and seeded mutations of both. Every expression that compiles is searched on 8 documents (null, scalars, invalid UTF-8, heterogeneous, nested 200 deep, 10^4-element array with long astral strings) through Search and Compile+Search under recover(); " +
+		"(3) every recursive construct nested 1..~32k deep (up to 64 KiB); (4) grammar-generated trees of all fragments with hostile leaves, and 21 functions on 43 edge strings (truncated numbers, lone signs, huge digit runs, invalid UTF-8, NUL, 70 kB strings); (4b) every function x 16 call shapes x 25 element patterns (homogeneous, one odd element first / middle / last, inconsistent by-expression keys, all types mixed) x 22 array lengths on and around internal thresholds (…63, 64, 65…1000; thorough to 10000); (5) the repository's fuzz corpus (642 files go test never runs), the compliance expressions and seeded mutations of both. Every expression that compiles is searched on 8 documents (null, scalars, invalid UTF-8, heterogeneous, nested 200 deep, 10^4-element array with long astral strings) through Search and Compile+Search under recover(); " +
 		"a stalled case is nominated after 90 s and confirmed in a fresh single-case process (120 s); serial metering of allocation against a size-derived bound. Non-trivial = distinct inputs that compiled (reached the interpreter)."
 	r.Floor = 2000
 	r.Assumptions = []string{"recover() observes every run-time panic; fatal errors and hangs are observed by the parent process (exit status, stall alarm, watchdog)",
@@ -224,6 +225,53 @@ func c05(r *mon.Run) {
 				}
 			}
 			t.Nontrivial("ovf:" + ovf[i])
+		}})
+	// inputs large enough that an algorithm that is quadratic (or worse) in one shape - many equal keys, long runs of
+	// one character, one operator repeated, one huge object - takes minutes where a linear one takes milliseconds:
+	// the stall alarm (90 s, confirmed in a fresh process) is the monitor, the sizes are the reach
+	var largeDoc map[string]interface{}
+	var largeOnce sync.Once
+	mkLarge := func() {
+		n := 100000
+		same := make([]interface{}, n)
+		asc := make([]interface{}, n)
+		strs := make([]interface{}, n)
+		objs := make([]interface{}, n)
+		nested := make([]interface{}, 20000)
+		wide := map[string]interface{}{}
+		for i := 0; i < n; i++ {
+			same[i] = float64(7)
+			asc[i] = float64(i)
+			strs[i] = "k" + strconv.Itoa(i%1000)
+			objs[i] = map[string]interface{}{"k": float64(i % 3), "s": "same", "i": float64(i)}
+		}
+		for i := range nested {
+			nested[i] = []interface{}{[]interface{}{}, []interface{}{[]interface{}{}}}
+			wide["key"+strconv.Itoa(i)] = float64(i % 5)
+		}
+		largeDoc = map[string]interface{}{"same": same, "asc": asc, "strs": strs, "objs": objs, "nested": nested, "wide": wide, "run": strings.Repeat("a", 300000), "runb": strings.Repeat("a", 299999) + "b", "words": strings.Repeat("ab ", 100000)}
+	}
+	largeExprs := []string{"sort(same)", "sort(asc)", "sort(strs)", "sort_by(objs, &k)", "sort_by(objs, &s)", "max_by(objs, &k)", "min_by(objs, &i)", "reverse(asc)", "reverse(run)", "length(run)", "contains(run, 'ab')", "contains(runb, 'ab')", "contains(same, `8`)",
+		"contains(strs, 'zz')", "starts_with(run, runb)", "ends_with(runb, run)", "join('', strs)", "join(',', strs)", "sum(asc)", "avg(same)", "max(strs)", "min(asc)", "same == same", "asc == asc", "objs == objs", "nested[]", "nested[][]", "nested[][][]",
+		"keys(wide)", "values(wide)", "length(wide)", "wide.*", "merge(wide, wide)", "to_string(asc)", "to_string(wide)", "length(to_string(objs))", "objs[?k == `1`].i | length(@)", "objs[*].k", "objs[].s | length(@)", "asc[::-1] | [0]", "asc[::3] | length(@)",
+		"map(&k, objs) | length(@)", "strs[?@ == 'k5'] | length(@)", "objs[?s == 'same' && k > `0`] | length(@)", "not_null(same)", "to_array(asc) | length(@)", "[same, asc, strs][] | length(@)", "type(objs)", "words == run", "sort(strs)[0]", "length(join('', strs))"}
+	ws = append(ws, mon.Workload{Name: "large-inputs", N: len(largeExprs) * 2, Batch: 1,
+		Describe: func(i int) string { return largeExprs[i/2] + " on 10^5-element / 3*10^5-byte operands" },
+		Do: func(i int, t *mon.Tally) {
+			largeOnce.Do(mkLarge)
+			expr := largeExprs[i/2]
+			t.Eval()
+			var o mon.Observed
+			if i%2 == 0 {
+				o = apiSearch(expr, largeDoc)
+			} else {
+				o = apiCompiledSearch(expr, largeDoc)
+			}
+			if o.Panicked {
+				r.Violate(&mon.Violation{Workload: "large-inputs", Index: i, API: "Search", Expr: expr, DocDesc: "arrays of 10^5 elements, strings of 3*10^5 bytes, an object of 2*10^4 members", Expected: "a value or an error", Observed: clipStr(o.String(), 300), Detail: o.Stack, Class: "large-inputs: panic"})
+				return
+			}
+			t.Nontrivial("large:" + expr)
 		}})
 	th := r.Tier == "thorough"
 	ws = append(ws, mon.Workload{Name: "sized-arrays", N: sizedCount(th), Batch: 500,
